@@ -2,6 +2,7 @@ package main
 
 import (
 	"bytes"
+	"strings"
 	"context"
 	"encoding/hex"
 	"encoding/json"
@@ -205,9 +206,18 @@ func check(st *stats, u *sergen.Universe, s *sergen.Shape, v *sergen.Val, valida
 		if countIt {
 			st.count("rejected_by_encoder", 1)
 		}
+		if sergen.ProvablyValid(s, v) {
+			// every length fits its prefix width, all min/max bounds are met, strings are UTF-8, uint256 in
+			// range, and no node has a rule the harness would have to re-implement: the rejection is wrong
+			add("bin", "encoder-rejected-valid-value", "Encode rejected a value that the documented layout can express and that meets all its bounds: %v", short(fmt.Sprint(err), 300))
+		}
 	default:
 		out.accepted = true
 		out.bytes = b
+		if !sergen.Representable(s, v) {
+			add("bin", "encoder-accepted-unrepresentable-value", "Encode accepted (%d bytes) a value the documented layout cannot express (a length beyond its prefix width or a uint256 outside [0, 2^256))", len(b))
+		}
+		b0 := append([]byte{}, b...)
 		if countIt {
 			st.count("roundtrips_binary", 1)
 			st.count("evaluations", 1)
@@ -217,6 +227,10 @@ func check(st *stats, u *sergen.Universe, s *sergen.Shape, v *sergen.Val, valida
 		}
 		dst := sergen.New(s)
 		n, derr, dpan := safeDecode(u.API, s, b, dst.Interface(), validation)
+		if !bytes.Equal(b, b0) {
+			add("bin", "decode-mutated-input", "Decode changed the byte slice it was given (first difference at offset %d of %d)", firstDiff(b, b0), len(b))
+			copy(b, b0)
+		}
 		switch {
 		case dpan != nil:
 			add("bin", "decode-panic", "Encode accepted the value (%d bytes) but Decode panicked: %v", len(b), dpan)
@@ -269,6 +283,10 @@ func check(st *stats, u *sergen.Universe, s *sergen.Shape, v *sergen.Val, valida
 				dd.Elem().Set(sergen.Build(s, dv, nil))
 				n, derr, dpan := safeDecode(u.API, s, b, dd.Interface(), validation)
 				st.count("dirty_destination_decodes", 1)
+				if !bytes.Equal(b, b0) {
+					add("bin", "decode-mutated-input", "Decode into a pre-populated destination changed the byte slice it was given")
+					copy(b, b0)
+				}
 				if dpan != nil || derr != nil {
 					add("bin", "dirty-decode-fails", "decoding into a pre-populated destination failed: %v %v", derr, dpan)
 				} else if n != len(b) {
@@ -412,11 +430,14 @@ func children(n node) []node {
 	case sergen.Ptr:
 		out = append(out, node{n.s.Elem, n.v.L[0], nil})
 	case sergen.Slice, sergen.Array:
-		for _, e := range n.v.L {
+		for i, e := range n.v.L {
+			if i >= 16 {
+				break // shrinking looks at the first elements only
+			}
 			out = append(out, node{n.s.Elem, e, nil})
 		}
 	case sergen.Map:
-		for i := 0; i+1 < len(n.v.L); i += 2 {
+		for i := 0; i+1 < len(n.v.L) && i < 32; i += 2 {
 			out = append(out, node{n.s.Key, n.v.L[i], nil}, node{n.s.Elem, n.v.L[i+1], nil})
 		}
 	case sergen.Iface:
@@ -563,10 +584,12 @@ func runSerix(c *vf.Ctx, a *agg, workers int) {
 	base := c.Rand("serix-universes").Int63()
 	// every universe runs in a child process with an address-space limit, so that a decoder that asks
 	// for gigabytes on the bytes Encode just produced kills a child and not the check
-	vf.Parallel(workers+1, workers+1, func(w int) {
+	vf.Parallel(workers+3, workers+3, func(w int) {
 		var res vf.ChildResult
 		if w == workers {
 			res = c.RunChild(vf.ChildOpts{Name: "serix-static", MemKB: 3 << 20, Timeout: time.Duration(c.Pick(4, 20)) * time.Minute})
+		} else if w > workers {
+			res = c.RunChild(vf.ChildOpts{Name: "serix-boundary", Args: []string{fmt.Sprint(w - workers - 1)}, MemKB: 3 << 20, Timeout: time.Duration(c.Pick(4, 20)) * time.Minute})
 		} else {
 			res = c.RunChild(vf.ChildOpts{Name: "serix", Args: []string{fmt.Sprint(base), fmt.Sprint(w), fmt.Sprint(workers), fmt.Sprint(nUni)},
 				MemKB: 3 << 20, Timeout: time.Duration(c.Pick(4, 20)) * time.Minute})
@@ -586,7 +609,7 @@ func runSerix(c *vf.Ctx, a *agg, workers int) {
 			var call string
 			if n, _ := fmt.Sscanf(iso.LastMark, "in-call %s", &call); n == 1 && iso.ExitCode != 0 && !iso.TimedOut {
 				c.Violation("bin:"+call+"-killed-process", fmt.Sprintf("the process died (exit %d) while %s was running on a value / on bytes of the round trip of universe %d shape %d", iso.ExitCode, call, useed, si),
-					replayRec{Part: "serix", Static: useed == -1, USeed: useed, ShapeIdx: si, ValIdx: -1, Detail: "process death inside " + call})
+					replayRec{Part: "serix", Static: useed < 0, USeed: useed, ShapeIdx: si, ValIdx: -1, Detail: "process death inside " + call})
 			} else {
 				c.Inconclusive(fmt.Sprintf("serix child %d died (exit %d) at %s; the isolating re-run ended with exit %d at %q", w, res.ExitCode, res.LastMark, iso.ExitCode, iso.LastMark))
 			}
@@ -601,12 +624,7 @@ func serixIsolateChild(c *vf.Ctx) {
 	fmt.Sscan(c.ChildArgs[0], &useed)
 	fmt.Sscan(c.ChildArgs[1], &si)
 	callMark = func(name string) { c.Mark(name) }
-	var u *sergen.Universe
-	if useed == -1 {
-		u = sergen.NewStatic()
-	} else {
-		u = sergen.NewDynamic(useed)
-	}
+	u := sergen.ByID(useed)
 	st := newStats()
 	c.Mark("harness")
 	nv := 40
@@ -615,6 +633,23 @@ func serixIsolateChild(c *vf.Ctx) {
 	}
 	exercise(st, u, si, u.Shapes[si], nv)
 	(&agg{c: c}).merge(st)
+}
+
+// child "serix-boundary": fixed values on the boundaries of prefix widths, uint256 and timestamps.
+func serixBoundaryChild(c *vf.Ctx) {
+	a := &agg{c: c}
+	u := sergen.NewBoundary()
+	var half int
+	fmt.Sscan(c.ChildArgs[0], &half)
+	for si, s := range u.Shapes {
+		if si%2 != half {
+			continue
+		}
+		st := newStats()
+		c.Mark(fmt.Sprintf("universe %d shape %d", u.Seed, si))
+		exercise(st, u, si, s, 0)
+		a.merge(st)
+	}
 }
 
 // child "serix-static": the hand-declared universe.
@@ -653,10 +688,22 @@ func serixChild(c *vf.Ctx) {
 }
 
 func exercise(st *stats, u *sergen.Universe, si int, s *sergen.Shape, nVals int) {
-	vals := sergen.Values(s, valRng(u.Seed, si), nVals)
+	vals := sergen.ValuesOf(u, s, valRng(u.Seed, si), nVals)
 	classified := map[string]int{}
 	nontrivial := false
 	for vi, v := range vals {
+		if label := u.FixedLabel[v]; label != "" {
+			st.dist("boundary_values", label)
+			parts := strings.SplitN(label, "/", 4)
+			switch parts[0] {
+			case "len":
+				st.count("boundary_length_cases/"+parts[2], 2) // per prefix width; two validation modes
+			case "uint256":
+				st.count("boundary_uint256_cases", 2)
+			case "time":
+				st.count("boundary_time_cases", 2)
+			}
+		}
 		for _, validation := range []bool{false, true} {
 			// classification (shrinking) is bounded per shape; further failures of the same
 			// shape reuse nothing – they are simply counted
